@@ -41,6 +41,7 @@ KSim   == { <<"dense", 8>>, <<"mixed", 8>>, <<"dense", 6>>, <<"mixed", 10>>, <<"
 KTiny  == K3 \cup K1 \cup D4
 KSmall == K4 \cup K1 \cup { <<"mixed", 5>> }
 KMid   == KSmall \cup K3 \cup { <<"dense", 5>>, <<"chain", 6>>, <<"accs", 6>>, <<"none", 3>> }   \* thorough tier
+KMid19 == KSmall \cup K3 \cup { <<"dense", 5>>, <<"none", 3>> }   \* thorough tier with the deadline
 KMany  == K6 \cup K8 \cup KSmall \cup { <<"none", 3>>, <<"dense", 7>> }
 
 NWOf(id) == { n \in NWs : n > 0 } \cup (IF 0 \in NWs THEN { id[2] + 1 } ELSE {})
